@@ -371,9 +371,9 @@ def gen_file(em: Emitter, repo: str, mod: ModSpec, sc: Sidecar, res: dict, unit_
         if not f.has_body:
             # required trait method: only a spec can be attached
             if c is not None and c.sig.strip():
-                add_ins(toks[f.sig_end].start, '\n' + c.sig + '\n', 'sig:%s' % c.label, {'contract': c.label})
                 if f.ret_arrow is not None:
                     _name_ret(toks, f, add_ins, add_del, c.ret_name, res, fkey)
+                add_ins(toks[f.sig_end].start, '\n' + c.sig + '\n', 'sig:%s' % c.label, {'contract': c.label})
                 res['under_contract'].append(dict(label, mode='trait-required-spec', props=c.props))
             continue
         if c is None or c.mode == 'external':
